@@ -2,23 +2,18 @@ From DD Require Export GC Subst Driver2.
 Definition vstate (vm lm : gmap nat nat) (k : nat) : st :=
   St {[1%positive := tterm k]} {[tterm k := 1%positive]} {[1%positive := 1]}
      2%positive ∅ vm lm None false [] [] None.
-Lemma add_var_vstate vm lm v i :
-  vm !! v = None → lm !! i = None →
-  add_var v (Some i) (vstate vm lm (size vm))
-  = (Ok i, vstate (<[v := i]> vm) (<[i := v]> lm) (size (<[v := i]> vm))).
+Lemma st_ext (a b : st) :
+  succ a = succ b → pred a = pred b → refc a = refc b → min_free a = min_free b →
+  ite_tab a = ite_tab b → vars a = vars b → lvl2var a = lvl2var b →
+  last_len a = last_len b → rctx a = rctx b → roots a = roots b → tape a = tape b →
+  trig a = trig b → a = b.
+Proof. destruct a, b. cbn. by intros -> -> -> -> -> -> -> -> -> -> -> ->. Qed.
+Lemma init_terminal_vstate vm lm k k' :
+  init_terminal k' (vstate vm lm k) = (Ok tt, vstate vm lm k').
 Proof.
-  intros Hv Hi. unfold add_var. cbn [bind get].
-  change (vars (vstate vm lm (size vm))) with vm. rewrite Hv.
-  rewrite decide_False by (by intros [? ?]).
-  assert (E1 : next_free_level (Some i) (vstate vm lm (size vm)) = (Ok i, vstate vm lm (size vm))).
-  { unfold next_free_level. cbn [bind get].
-    change (lvl2var (vstate vm lm (size vm))) with lm. by rewrite Hi. }
-  rewrite (bind_ok _ _ _ _ _ E1). cbn [bind modify get].
-  unfold init_terminal, modify, ret.
-  unfold vstate, set, nvars.
-  cbn [succ pred refc min_free ite_tab vars lvl2var last_len rctx roots tape trig].
-  unfold bind.
-  cbn [succ pred refc min_free ite_tab vars lvl2var last_len rctx roots tape trig].
-  rewrite !lookup_singleton. cbn [default].
-  rewrite delete_singleton, insert_singleton. reflexivity.
+  unfold init_terminal, modify. f_equal.
+  apply st_ext; try reflexivity.
+  - cbn.  apply insert_singleton.
+  - cbn. Show. rewrite lookup_singleton. cbn. by rewrite delete_singleton.
+  - cbn. by rewrite lookup_singleton. 
 Qed.
